@@ -116,9 +116,12 @@ def rule_d(ctx):
     for w, v in store_values(ctx, SS, 'max_data'):
         r = F.root_of(w.body)
         ok = v[0] == 'call' and v[1] in ('Ord::max', 'u64::max', 'cmp::max') and D.has_field(v, 'max_data')
+        if r.short == 'StreamsState::zero_rtt_rejected':
+            # (re)initialisation: the limit remembered from the previous session is void once 0-RTT is rejected
+            ok = v[0] == 'const' and str(v[2]) == '0'
         ctx.check(ok, 'd', 'conn_max_data_monotone', r, w.where(), D.render(v)[:120],
                   'StreamsState.max_data stored with a non-monotone value (expected max(old, n)): ' + D.render(v)[:200])
-    who_may_write(ctx, 'd', 'conn_max_data_writers', SS, 'max_data', ['StreamsState::received_max_data', 'StreamsState::new'], floor=1, kinds=('assign', 'callresult', 'mutborrow'))
+    who_may_write(ctx, 'd', 'conn_max_data_writers', SS, 'max_data', ['StreamsState::received_max_data', 'StreamsState::new', 'StreamsState::zero_rtt_rejected'], floor=1, kinds=('assign', 'callresult', 'mutborrow'))
     who_may_call(ctx, 'd', 'received_max_data_callers', ['StreamsState::received_max_data'], ['StreamsState::set_params', 'Connection::process_payload'], floor=2)
     # Send.max_data
     imd = ctx.pfn('Send::increase_max_data')
